@@ -146,6 +146,15 @@ def sys_pred_suite(name, pred, quick, thorough, length=60, extra=None):
     return su
 
 
+def vsys_pred_suite(name, pred, quick, thorough, length=50, extra=None):
+    """cron / volatile pipeline runs with transient faults of the store's Pop: no model follows faults in that configuration;
+    the trace predicates (model-independent) are evaluated, M is empty by construction"""
+    su = vsys_suite(name, pred, quick, thorough, length, extra)
+    su["eval"] = ("Definition M : list (nat * nat) := [].\nPrint M.\n"
+                  "Definition V := Eval vm_compute in vtrace_violations %s cases 0.\nPrint V." % pred)
+    return su
+
+
 def hook_suite(name, quick, thorough, length=40, extra=None):
     return {
         "name": name, "cmd": ["hook", "--len", str(length)] + (extra or []),
@@ -278,7 +287,10 @@ SUITES = {
                        # the failing MarkAsDispatched is the CORE repository's (before / after taking effect): the observable
                        # wrapper sees it too. No model follows this placement: the predicate alone is evaluated (F20)
                        sys_pred_suite("c20-sys-corefaults", "c20_ok", {"n": 40, "shards": 4}, {"n": 200, "shards": 16},
-                                      extra=["--faults", "--core-faults"])],
+                                      extra=["--faults", "--core-faults"]),
+                       # cron / volatile configuration: the store's Pop fails transiently inside MarkAsDispatched
+                       vsys_pred_suite("c20-vsys-faults", "vall_ok", {"n": 25, "shards": 4}, {"n": 60, "shards": 16},
+                                       extra=["--vfaults"])],
             "rule": "two suites: random multi-fault schedules (a sixth of the scheduler's calls fails before or after taking effect, alternately with a plain error and a wrapped context.Canceled; failing look-ups inside the hook; dispatches cancelled while waiting for a worker) and, for seeded base scenarios, EVERY placement of one fault (thorough: of two faults) over the scheduler's calls before quiescence, one run per placement; every run ends with a fault-free quiescence phase; distinct = distinct sha1 of the printed label trace"},
     "C07": {"suites": [
         hook_suite("c07-hook", {"n": 40, "shards": 8}, {"n": 400, "shards": 16}),
